@@ -303,11 +303,20 @@ def structured_pack(sh, s, d, case):
     db.close() if False else None
     changes = FSM.FileStorage(os.path.join(d, 'PC.fs')) if rnd.random() < 0.3 else None
     demo = ZODB.DemoStorage.DemoStorage(base=base, changes=changes, close_base_on_close=False)
+    variant = rnd.choice(['plain', 'plain', 'pushed-over-unchanged-layer', 'blob-used']) if changes is None else 'plain'
+    if variant == 'pushed-over-unchanged-layer':
+        demo = demo.push()          # the layer below has no changes of its own; the objects live two layers down
     db2 = ZODB.DB(demo)
     with db2.transaction() as c:
         c.root()['x'] = objs.Cell('changes child')
         if rnd.random() < 0.5:
             c.root()['b0'].payload = 'modified base child'
+    if variant == 'blob-used':
+        import ZODB.blob
+        with db2.transaction() as c:    # the temporary changes get wrapped in a blob storage from here on
+            c.root()['blob'] = objs.Cell('holder')
+            c.root()['blob'].refs['b'] = ZODB.blob.Blob(b'blob bytes')
+    sh.note('structured_pack_variants', variant)
 
     def snap():
         c = db2.open()
@@ -320,7 +329,8 @@ def structured_pack(sh, s, d, case):
     try:
         db2.pack(1e11)
     except Exception as e:
-        sh.note('structured_pack_exceptions', '%s:%s' % (bkind, type(e).__name__))
+        sh.violation('c16:pack-through-demo-raises-%s' % type(e).__name__,
+                     {'exc': repr(e)[:160], 'base': bkind, 'file_changes': changes is not None, 'variant': variant}, case)
     db2.cacheMinimize()
     try:
         after = snap()
